@@ -6,8 +6,65 @@ from simkit import enginea, proglib, refinterp, schedsim
 from simkit.acheck import EngineACheck
 from simkit.choices import Choices
 from simkit.dbview import DbView
-from simkit.progs import ALL_FEATURES, Gen, GenConfig
+from simkit.progs import ALL_FEATURES, HEADER, Gen, GenConfig, RawProgram
 from simkit.runner import RunOutcome
+
+
+def gen_orphan_program(ch: Choices) -> RawProgram:
+    """
+    Targeted family: a parent job fails because of one child while its other children still
+    wait for their arguments (delay chains, cached in the second execution); the same parent
+    call is planted several times, below wrappers of different depth, so that the late children
+    of an already failed parent meet equal jobs that are running, done or failed.
+    """
+    L = [HEADER.format(ns="vp")]
+    L.append("@task()\ndef delay(x):\n    return x\n\n")
+    twin_opts = ["", "cache=False", "cache_scope='CSE'", "check_valid='shallow'",
+                 "executor='process'"][ch.choice(5, "twin-options")]
+    twin_fails = ch.coin(0.5, "twin-fails")
+    body = "    hit('twin', x)\n" + ("    raise ValueError('boom-twin')\n" if twin_fails else "")
+    L.append(f"@task({twin_opts})\ndef twin(x):\n{body}    return mix('twin', x)\n\n")
+    bad_kind = ch.choice(3, "bad-kind")
+    if bad_kind == 2:
+        # rejected by the scheduler itself, on its own thread
+        L.append("@task(executor='nope')\ndef bad(x):\n    return x\n\n")
+    else:
+        cls = ["ValueError", "ErrRes"][bad_kind]
+        L.append(f"@task()\ndef bad(x):\n    hit('bad', x)\n    raise {cls}('boom-bad')\n\n")
+
+    def delayed(c: str, label: str) -> str:
+        for _ in range(ch.choice(5, label)):
+            c = f"delay({c})"
+        return c
+
+    nparents = 1 + ch.choice(2, "nparents")
+    for i in range(nparents):
+        kids = [f"bad({delayed(str(ch.choice(2, 'bad-arg')), 'bad-delays')})"]
+        for _ in range(1 + ch.choice(2, "ntwins")):
+            kids.append(f"twin({delayed(str(ch.choice(2, 'twin-arg')), 'twin-delays')})")
+        kids = ch.shuffle(kids, "kid-order")
+        L.append(f"@task()\ndef parent{i}(x):\n    return [{', '.join(kids)}]\n\n")
+    L.append("@task()\ndef wrap(n, p, x):\n    if n == 0:\n"
+             "        return [parent0, parent1][p](x) if p else parent0(x)\n"
+             "    return wrap(n - 1, p, x)\n\n" if nparents == 2 else
+             "@task()\ndef wrap(n, p, x):\n    if n == 0:\n        return parent0(x)\n"
+             "    return wrap(n - 1, p, x)\n\n")
+    items = []
+    for _ in range(2 + ch.choice(3, "nitems")):
+        k = ch.choice(4, "item-kind")
+        if k == 0:
+            items.append(f"twin({delayed(str(ch.choice(2, 'twin-arg')), 'twin-delays')})")
+        else:
+            # (the same parent call several times: equal late children under different parents)
+            items.append(f"wrap({ch.choice(6, 'depth')}, {ch.choice(nparents, 'which-parent')}, "
+                         f"{ch.choice(2, 'parent-arg')})")
+    if not any(x.startswith("wrap") for x in items):
+        items.append("wrap(3, 0, 0)")
+    L.append(f"@task()\ndef t0():\n    return [{', '.join(items)}]\n")
+    prog = RawProgram("".join(L))
+    prog.task_errors = {("ValueError", "boom-twin"), ("ValueError", "boom-bad"),
+                        ("ErrRes", "boom-bad"), ("SchedulerError", 'Unknown executor "nope"')}
+    return prog
 
 
 class C12(EngineACheck):
@@ -20,11 +77,57 @@ class C12(EngineACheck):
         "case is (program, schedule signatures); non-trivial = the failure was uncaught"
     )
     EXPECTED_PROBES = ["uncaught_failures", "caught_failures", "second_execution_reexecutes_leaf",
-                       "cases_with_context"]
+                       "cases_with_context", "orphan_family_programs",
+                       "collapsed_under_failed_parent"]
     QUICK_SECONDS = 35.0
+
+    def run_orphan_family(self, ch: Choices, out: RunOutcome) -> RunOutcome:
+        """
+        The error run() raises is one that a task of the program raised (never an error of the
+        scheduler's own bookkeeping), in every execution; a failing task function runs again in
+        every execution.
+        """
+        prog = gen_orphan_program(ch)
+        out.probe("orphan_family_programs")
+        out.nontrivial = True
+        db = schedsim.fresh_db("run.db")
+        sess = enginea.ProgramSession(prog)
+        with sess:
+            for ex in range(2 + ch.choice(2, "nexec")):
+                proglib.reset_hits()
+                res = enginea.simulate(ch, prog, db_path=db, session=sess)
+                w, rec = res.world, res.rec
+                self.fill(out, w, prog, extra_key=str(ex))
+                if res.outcome[0] == "abort":
+                    out.violate("C12.terminates", "orphan-family/" + str(res.outcome[1]),
+                                {"execution": ex})
+                    break
+                if res.outcome[0] != "e":
+                    out.violate("C12.error_identity", "orphan-family/run-returned",
+                                {"execution": ex, "value": repr(res.outcome[1])[:200]})
+                    break
+                err = res.outcome[1]
+                if (type(err).__name__, str(err.args[0]) if err.args else "") not in prog.task_errors:
+                    out.violate("C12.error_identity", "orphan-family/not-a-task-error",
+                                {"execution": ex, "real": repr(err)[:300]})
+                    break
+                if rec.collapsed_under_settled_parent:
+                    out.probe("collapsed_under_failed_parent")
+                failing = {name for (name, _), n in proglib.HITS.items() if n}
+                raised = {"bad": "boom-bad", "twin": "boom-twin"}
+                culprit = next((t for t, m in raised.items() if err.args and err.args[0] == m), None)
+                if culprit and culprit not in failing:
+                    out.violate("C12.failed_call_reexecuted", f"orphan-family/execution-{min(ex, 1)}",
+                                {"execution": ex, "hits": sorted(map(repr, proglib.HITS))[:10]})
+                elif culprit and ex > 0:
+                    out.probe("second_execution_reexecutes_leaf")
+        out.sample = self.sample(prog, w, res)
+        return out
 
     def run_one(self, ch: Choices) -> RunOutcome:
         out = RunOutcome()
+        if ch.choice(4, "program-family") == 3:
+            return self.run_orphan_family(ch, out)
         feats = set(ALL_FEATURES) - {"catchall", "forkjoin"}
         cfg = GenConfig(
             features=feats, p_error=1.0, modes=("thread", "thread", "process"),
